@@ -60,8 +60,11 @@ partial def toVal : Sexp → M Val
     | some ty =>
       if (T.decl ty).shape != .list then throw s!"schema-mismatch {tn} not-a-list"
       let a ← fresh
-      let kids ← elems.mapM toVal
-      pure (.node .list a ty [] kids)
+      -- `(l "<T>" +cap)`: an empty slice that owns spare capacity; its backing array is an identity (keys = ["cap"])
+      if elems matches [.atom "+cap"] then pure (.node .list a ty ["cap"] [])
+      else
+        let kids ← elems.mapM toVal
+        pure (.node .list a ty [] kids)
   | .list (.atom "m" :: .str tn :: entries) => do
     match typeIdx tn with
     | none => throw s!"unknown-type {tn}"
@@ -92,8 +95,9 @@ end
 
 /-- positions at which copy and original hold the same address, labelled like the harness does -/
 partial def sharedOf (label : String) : Val → Val → List String
-  | .node sh a ty _ kids, .node _ a' _ _ kids' =>
-    if sh == .list && kids.isEmpty then []
+  | .node sh a ty keys kids, .node _ a' _ _ kids' =>
+    -- an empty slice has an identity only if it owns capacity (marker "cap")
+    if sh == .list && kids.isEmpty && keys != ["cap"] then []
     else if a == a' then [label]
     else
       let rec go (i : Nat) : List Val → List Val → List String
